@@ -100,6 +100,13 @@ func (si *startInfo) varsFromCall(p *Prog, pred func(*ast.CallExpr) bool) (vars 
 	return nil, nil
 }
 
+// mustPassNode: every path from the line receive to the commit passes node n.
+func (si *startInfo) mustPassNode(n *Node) bool {
+	seen := si.g.Reach([]*Node{si.lineN}, func(x *Node) bool { return x == n }, nil)
+	_, reach := seen[si.commit]
+	return !reach
+}
+
 // gatePass: every path from the line receive to the commit takes one of the pass edges.
 func (si *startInfo) gatePass(pass func(*Edge) bool) bool {
 	seen := si.g.Reach([]*Node{si.lineN}, nil, pass)
@@ -182,16 +189,16 @@ func ruleGate(c *Ctx) {
 			var stV, stP bool
 			for _, m := range g.Nodes {
 				if as, isAs := m.Ast.(*ast.AssignStmt); isAs && len(as.Lhs) == 1 && len(as.Rhs) == 1 {
-					if SelField(info, as.Lhs[0]) == nvF && len(vars) >= 1 && identObj(info, as.Rhs[0]) == vars[0] {
+					if SelField(info, as.Lhs[0]) == nvF && len(vars) >= 1 && identObj(info, as.Rhs[0]) == vars[0] && si.mustPassNode(m) {
 						stV = true
 					}
-					if SelField(info, as.Lhs[0]) == plF && len(vars) >= 2 && identObj(info, as.Rhs[0]) == vars[1] {
+					if SelField(info, as.Lhs[0]) == plF && len(vars) >= 2 && identObj(info, as.Rhs[0]) == vars[1] && si.mustPassNode(m) {
 						stP = true
 					}
 				}
 			}
 			okStore = stV && stP
-			report("G-app/store", okStore, n.Ast, "negotiatedVersion and config.Plugins are stored from the results of the version check",
+			report("G-app/store", okStore, n.Ast, "on every accepting path negotiatedVersion and config.Plugins are stored from the results of the version check",
 				"the version/plugin set the client reports are not the ones returned by the version check for field 2")
 		}
 	}
@@ -279,21 +286,25 @@ func ruleGate(c *Ctx) {
 		if certCall == nil {
 			c.R.Violate("R-GATE", p.Pos(f.Node()), f.Name, "G-cert", "no call with parts[5] reaches x509.ParseCertificate: an announced certificate is not parsed", nil)
 		} else {
-			// on the edge that established a long field 6, the call must be passed before the commit
-			ok := false
-			for _, m := range g.Nodes {
-				for _, e := range m.Succs {
-					at, isAt := edgeAtom(info, e)
-					if !isAt || at.Kind != "len" || at.Op != token.GTR || !si.isPartsIdx(at.X, 5) {
-						continue
-					}
-					seen := g.Reach([]*Node{e.To}, func(x *Node) bool { return x == certCall }, nil)
-					if _, leak := seen[si.commit]; !leak {
-						ok = true
-					}
+			// every accepting path either parses the certificate or established that field 6 is
+			// absent (fewer than six fields) or too short to be one
+			absent := func(e *Edge) bool {
+				at, isAt := edgeAtom(info, e)
+				if !isAt || at.Kind != "len" {
+					return false
 				}
+				if identObj(info, at.X) == si.parts && (at.Op == token.LSS && at.K <= 6 || at.Op == token.LEQ && at.K <= 5) {
+					return true
+				}
+				if si.isPartsIdx(at.X, 5) && (at.Op == token.LEQ || at.Op == token.LSS) {
+					return true
+				}
+				return false
 			}
-			report("G-cert", ok, certCall.Ast, "when field 6 is long enough to be a certificate, the parse call is passed before the commit (its error is returned per R-ERR)",
+			seen := g.Reach([]*Node{si.lineN}, func(x *Node) bool { return x == certCall }, absent)
+			_, leak := seen[si.commit]
+			ok := !leak
+			report("G-cert", ok, certCall.Ast, "every accepting path parses field 6 unless it established that the field is absent or too short to be a certificate (the parse error is returned per R-ERR)",
 				"a handshake line with a certificate field can be accepted without the certificate being parsed and pinned")
 		}
 	}
